@@ -18,6 +18,7 @@ import concurrent.futures as cf
 from vlib.core import VERIF
 from vlib.build import BuildError
 from tools.gen import bytecode as gen_bytecode
+from tools.gen import fiberframe as gen_fiberframe
 from tools.gen.csrc import ExtractError
 from harness.C02 import gen, oracle
 
@@ -47,6 +48,7 @@ def run(ctx):
     try:
         ctx.build.boot()
         ctx.gen("Bytecode.lean", gen_bytecode.render(ctx.build.tree))
+        ctx.gen("FiberFrame.lean", gen_fiberframe.render(ctx.build.tree))
     except ExtractError as e:
         broken.append("translator tools/gen/bytecode.py: %s" % e)
         ctx.broken.append(broken[-1])
